@@ -17,18 +17,20 @@ def sh(cmd, **kw):
     return subprocess.run(cmd, shell=True, capture_output=True, text=True, **kw)
 
 
-_VCOPY = None
+_VCOPY = {}
 
 
 def verif_copy():
-    """the checks are run from a private copy of /verif so that a seeded run never touches the real evidence files,
-    the regenerated constants or the driver binary of /verif"""
-    global _VCOPY
-    if _VCOPY is None:
-        _VCOPY = os.path.join(SCRATCH, "verif")
+    """the checks are run from a private copy of /verif (one per worker thread) so that a seeded run never touches the real
+    evidence files, the regenerated constants or the driver binary of /verif, and two workers never share a build directory"""
+    import threading
+    k = threading.get_ident()
+    if k not in _VCOPY:
+        d = os.path.join(SCRATCH, "verif-%d" % len(_VCOPY))
+        _VCOPY[k] = d
         os.makedirs(SCRATCH, exist_ok=True)
-        sh(f"rsync -a --delete --exclude .git --exclude replays {VERIF}/ {_VCOPY}/")
-    return _VCOPY
+        sh(f"rsync -a --delete --exclude .git --exclude replays {VERIF}/ {d}/")
+    return _VCOPY[k]
 
 
 def run_one(sid, tier="quick"):
@@ -103,20 +105,23 @@ def main():
         ids = sys.argv[2:] or sorted(d for d in os.listdir(SEEDED) if os.path.exists(os.path.join(SEEDED, d, "patch.diff")))
         out_path = os.environ.get("SEEDED_RESULTS") or os.path.join(SEEDED, "RESULTS.json")
         results = json.load(open(out_path)) if os.path.exists(out_path) else {}
-        for sid in ids:
-            r = run_one(sid)
-            results[sid] = r
-            caught = r.get("applied") and any(c["exit"] == 1 for c in r["checks"].values())
-            meta = json.load(open(os.path.join(SEEDED, sid, "meta.json")))
-            if meta.get("expect_quiet"):
-                noisy = [p for p, c in r.get("checks", {}).items() if c["exit"] != 0]
-                r["expect_quiet"] = True
-                print(sid, "QUIET (as it must be)" if r.get("applied") and not noisy else f"FALSE ALARM / ERROR in {noisy}", flush=True)
+        from concurrent.futures import ThreadPoolExecutor
+        jobs = int(os.environ.get("SEEDED_JOBS", "3"))
+        with ThreadPoolExecutor(max_workers=jobs) as ex:
+            for sid, r in zip(ids, ex.map(run_one, ids)):
+                results[sid] = r
+                caught = r.get("applied") and any(c["exit"] == 1 for c in r["checks"].values())
+                meta = json.load(open(os.path.join(SEEDED, sid, "meta.json")))
+                if meta.get("expect_quiet"):
+                    noisy = [p for p, c in r.get("checks", {}).items() if c["exit"] != 0]
+                    r["expect_quiet"] = True
+                    print(sid, "QUIET (as it must be)" if r.get("applied") and not noisy else
+                          f"FALSE ALARM / ERROR in {noisy}" if r.get("applied") else "PATCH-FAILED", flush=True)
+                    json.dump(results, open(out_path, "w"), indent=1)
+                    continue
+                print(sid, "CAUGHT" if caught else "MISSED" if r.get("applied") else "PATCH-FAILED",
+                      {p: (c["exit"], "concrete" if c["concrete"] else "") for p, c in r.get("checks", {}).items()}, flush=True)
                 json.dump(results, open(out_path, "w"), indent=1)
-                continue
-            print(sid, "CAUGHT" if caught else "MISSED" if r.get("applied") else "PATCH-FAILED",
-                  {p: (c["exit"], "concrete" if c["concrete"] else "") for p, c in r.get("checks", {}).items()}, flush=True)
-            json.dump(results, open(out_path, "w"), indent=1)
         shutil.rmtree(SCRATCH, ignore_errors=True)
     elif len(sys.argv) >= 2 and sys.argv[1] == "import":
         # import the deliverables of a mutation sub-agent: /tmp/seed/<pid>/out/{A,B}
